@@ -12,7 +12,38 @@ fn utf8_le4(buf: &mut [u8; 4]) -> Option<&str> {
     std::str::from_utf8(&buf[..len]).ok()
 }
 
-/// @harness id=k_word4 props=C11 tier=quick unwind=6 mem=16 cap=900
+/// Any valid UTF-8 string of <= 3 bytes.
+fn utf8_le3(buf: &mut [u8; 3]) -> Option<&str> {
+    let b: [u8; 3] = any();
+    let len: usize = any();
+    assume(len <= 3);
+    *buf = b;
+    std::str::from_utf8(&buf[..len]).ok()
+}
+
+/// @harness id=k_word3 props=C11 tier=quick unwind=5 mem=8 cap=600
+/// extract_word_at_position(any valid UTF-8 <= 3 bytes, any usize column): no panic; a returned word is
+/// a non-empty substring.
+#[cfg_attr(kani, kani::proof)]
+#[cfg_attr(kani, kani::stub(core::unicode::unicode_data::alphabetic::lookup, stubs::uni_alphabetic))]
+#[cfg_attr(kani, kani::stub(core::unicode::unicode_data::n::lookup, stubs::uni_numeric))]
+pub fn k_word3() {
+    stubs::draw_uni_mask();
+    let mut buf = [0u8; 3];
+    if let Some(s) = utf8_le3(&mut buf) {
+        let c: usize = any();
+        note!("extract_word_at_position({:?}, {})", s, c);
+        let w = su::extract_word_at_position(s, c);
+        if let Some(w) = &w {
+            check!("k_word3.nonempty", !w.is_empty());
+            check!("k_word3.le_len", w.len() <= s.len());
+        }
+        reach!("k_word3.end");
+        std::mem::forget(w);
+    }
+}
+
+/// @harness id=k_word4 props=C11 tier=thorough unwind=6 mem=24 cap=2400
 /// extract_word_at_position(any valid UTF-8 <= 4 bytes, any usize column): no panic; a returned word is
 /// a non-empty substring.
 #[cfg_attr(kani, kani::proof)]
@@ -49,5 +80,177 @@ pub fn k_annot4() {
         let lines = [s];
         let r = su::parameter_has_annotation(&lines, line, end_char);
         reach!("k_annot4.end");
+    }
+}
+
+// ---------------------------------------------------------------------------------------------
+// format_docstring on two-line templates: the indentation arithmetic is per line, so two continuation
+// lines with different leading "whitespace classes" are the smallest interesting shape.
+fn cls(k: u8) -> &'static str {
+    match k { 0 => "", 1 => " ", 2 => "\t", 3 => "\u{2003}", 4 => "\u{e9}", 5 => "  ", _ => "\u{a0} " }
+}
+macro_rules! doc_case {
+    ($a:expr, $b:expr) => {{
+        let t: String = [ "a\n", cls($a), "b\n", cls($b), "c" ].concat();
+        note!("format_docstring({:?})", t);
+        let out = su::format_docstring(t);
+        std::mem::forget(out);
+    }};
+}
+/// @harness id=k_docstring_classes props=C11 tier=quick unwind=12 mem=8 cap=900
+/// format_docstring("a\n" + X + "b\n" + Y + "c") for X, Y over {"", " ", tab, EM SPACE (3-byte Unicode
+/// whitespace), e-acute (2-byte letter), two spaces, NBSP+space}: 49 concrete templates chosen by two symbolic
+/// selectors, each its own call site. No panic.
+#[cfg_attr(kani, kani::proof)]
+#[cfg_attr(kani, kani::stub(core::unicode::unicode_data::white_space::lookup, stubs::uni_white_space))]
+pub fn k_docstring_classes() {
+    stubs::draw_uni_mask();
+    let a: u8 = any(); let b: u8 = any();
+    assume(a < 7 && b < 7);
+    macro_rules! row { ($x:expr) => { match b { 0 => doc_case!($x, 0), 1 => doc_case!($x, 1), 2 => doc_case!($x, 2), 3 => doc_case!($x, 3), 4 => doc_case!($x, 4), 5 => doc_case!($x, 5), _ => doc_case!($x, 6) } } }
+    match a { 0 => row!(0), 1 => row!(1), 2 => row!(2), 3 => row!(3), 4 => row!(4), 5 => row!(5), _ => row!(6) }
+    reach!("k_docstring_classes.end");
+}
+
+// ---------------------------------------------------------------------------------------------
+/// sorted line index with index[0] == 0 and <= 4 lines, any offset
+fn any_line_index(buf: &mut [usize; 4]) -> usize {
+    let n: usize = any();
+    assume(n >= 1 && n <= 4);
+    let a: [u8; 4] = any();
+    buf[0] = 0;
+    for i in 1..4 { buf[i] = buf[i - 1] + 1 + (a[i] as usize); }
+    n
+}
+/// @harness id=k_line_index props=C11,C15 tier=quick unwind=6 mem=4 cap=600
+/// get_line_from_offset / get_char_position_from_offset on any strictly increasing line index (<= 4 lines,
+/// first entry 0) and any offset: no panic; line = number of line starts <= offset; column = offset - start.
+#[cfg_attr(kani, kani::proof)]
+pub fn k_line_index() {
+    let mut buf = [0usize; 4];
+    let n = any_line_index(&mut buf);
+    let idx = &buf[..n];
+    let off: usize = any();
+    let db = crate::fixtures::FixtureDatabase::new();
+    note!("index={:?} offset={}", idx, off);
+    let line = db.get_line_from_offset(off, idx);
+    let col = db.get_char_position_from_offset(off, idx);
+    let mut want = 0usize;
+    for i in 0..n { if idx[i] <= off { want = i + 1; } }
+    check!("k_line_index.line", line == want);
+    check!("k_line_index.col", col == off - idx[want - 1]);
+    reach!("k_line_index.end");
+    std::mem::forget(db);
+}
+
+// ---------------------------------------------------------------------------------------------
+/// @harness id=k_insertion_bytes props=C11,C17 tier=quick unwind=9 mem=8 cap=900
+/// get_function_param_insertion_info on a one-line file of 6 symbolic bytes over the alphabet
+/// { '(' ')' ':' ' ' 'x' '#' ',' e-acute(2 bytes) }, function_line in 0..=2: no panic; a returned position
+/// lies on the line and points at a ')' that is followed by ':'.
+#[cfg_attr(kani, kani::proof)]
+#[cfg_attr(kani, kani::stub(std::path::Path::canonicalize, stubs::canonicalize_err))]
+#[cfg_attr(kani, kani::stub(std::fs::read_to_string, stubs::read_to_string_err::<&std::path::Path>))]
+#[cfg_attr(kani, kani::stub(core::unicode::unicode_data::white_space::lookup, stubs::uni_white_space))]
+pub fn k_insertion_bytes() {
+    stubs::draw_uni_mask();
+    let sel: [u8; 6] = any();
+    let mut text = String::with_capacity(16);
+    for k in 0..6 {
+        assume(sel[k] < 8);
+        text.push_str(match sel[k] { 0 => "(", 1 => ")", 2 => ":", 3 => " ", 4 => "x", 5 => "#", 6 => ",", _ => "\u{e9}" });
+    }
+    let fl: usize = any();
+    assume(fl <= 2);
+    note!("get_function_param_insertion_info(text={:?}, function_line={})", text, fl);
+    let db = crate::fixtures::FixtureDatabase::new();
+    let p = std::path::PathBuf::from(crate::world::path(crate::world::U));
+    let bytes: Vec<u8> = text.as_bytes().to_vec();
+    db.file_cache.insert(p.clone(), std::sync::Arc::new(text));
+    let r = db.get_function_param_insertion_info(&p, fl);
+    if let Some(i) = &r {
+        check!("k_insertion.line", i.line == 1);
+        check!("k_insertion.at_close_paren", i.char_pos + 1 < bytes.len() && bytes[i.char_pos] == b')' && bytes[i.char_pos + 1] == b':');
+    }
+    reach!("k_insertion_bytes.end");
+    std::mem::forget(r); std::mem::forget(db); std::mem::forget(bytes);
+}
+
+// ---------------------------------------------------------------------------------------------
+// find_function_name_position on `def` line templates (C15): the span must be the name token.
+macro_rules! fnp_case {
+    ($line:expr, $name:expr, $start:expr) => {{
+        note!("find_function_name_position({:?}, 1, {:?}) want start {}", $line, $name, $start);
+        let (s, e) = su::find_function_name_position($line, 1, $name);
+        (s == $start && e == $start + $name.len())
+    }};
+}
+/// @harness id=k_fn_name_pos props=C15 tier=quick unwind=24 mem=6 cap=900
+/// find_function_name_position on def-line templates chosen by a symbolic selector: plain, async, indented
+/// (spaces / tab), two spaces after def, a parameter equal to the name, the name occurring inside `def`/`async`
+/// letters, and `def<TAB>name` (tab instead of space).
+#[cfg_attr(kani, kani::proof)]
+pub fn k_fn_name_pos() {
+    let k: u8 = any();
+    assume(k < 9);
+    let ok = match k {
+        0 => fnp_case!("def f(f): pass", "f", 4),
+        1 => fnp_case!("async def f(f): pass", "f", 10),
+        2 => fnp_case!("    def f(self, f): pass", "f", 8),
+        3 => fnp_case!("\tdef f(f): pass", "f", 5),
+        4 => fnp_case!("def  f(f): pass", "f", 5),
+        5 => fnp_case!("def e(d): pass", "e", 4),
+        6 => fnp_case!("async def a(a): pass", "a", 10),
+        7 => fnp_case!("def d(): pass", "d", 4),
+        _ => fnp_case!("def\tf(f): pass", "f", 4),
+    };
+    if k == 8 && crate::kf::C15_DEF_TAB_NAME_POSITION {
+        check!("KF:k_fn_name_pos.tab_after_def", ok);
+    } else {
+        check!("k_fn_name_pos.span_is_name_token", ok);
+    }
+    reach!("k_fn_name_pos.end");
+}
+
+// ---------------------------------------------------------------------------------------------
+/// @harness id=k_stale_spans props=C11 tier=quick unwind=6 mem=12 cap=1200
+/// Position queries on an index whose spans are STALE: a usage of `f` (any span 0 <= s < e <= 6 on line 1) and
+/// a definition of `f` on line 1 were recorded for an earlier version; file_cache now holds any valid UTF-8
+/// text of <= 3 bytes (what analyze_file leaves behind after an unparsable edit). find_fixture_definition,
+/// find_fixture_at_position and find_fixture_or_definition_at_position with any line < u32::MAX and any
+/// column: no panic.
+#[cfg_attr(kani, kani::proof)]
+#[cfg_attr(kani, kani::stub(std::path::Path::exists, stubs::path_exists_false))]
+#[cfg_attr(kani, kani::stub(crate::fixtures::FixtureDatabase::is_fixture_imported_in_file, crate::world::stub_is_imported))]
+#[cfg_attr(kani, kani::stub(core::unicode::unicode_data::alphabetic::lookup, stubs::uni_alphabetic))]
+#[cfg_attr(kani, kani::stub(core::unicode::unicode_data::n::lookup, stubs::uni_numeric))]
+pub fn k_stale_spans() {
+    use crate::world::*;
+    stubs::draw_uni_mask();
+    let mut buf = [0u8; 3];
+    if let Some(s) = utf8_le3(&mut buf) {
+        let us: usize = any(); let ue: usize = any();
+        assume(us < ue && ue <= 6);
+        let line: u32 = any(); let col: u32 = any();
+        assume(line < u32::MAX);
+        note!("stale text {:?}; recorded usage f@1:{}..{}; query line={} col={}", s, us, ue, line, col);
+        let db = crate::fixtures::FixtureDatabase::new();
+        let mut w = World::new(&[C0, U]);
+        w.def(C0, "f", 4);
+        w.def(U, "f", 1);
+        let mut v = Vec::with_capacity(2);
+        v.push(mk_def(&w.defs[0]));
+        v.push(mk_def(&w.defs[1]));
+        db.definitions.insert("f".to_string(), v);
+        let p = std::path::PathBuf::from(path(U));
+        db.file_cache.insert(p.clone(), std::sync::Arc::new(s.to_string()));
+        let mut uv = Vec::with_capacity(1);
+        uv.push(mk_use(U, "f", 1, us, ue));
+        db.usages.insert(p.clone(), uv);
+        let a = db.find_fixture_definition(&p, line, col);
+        let b = db.find_fixture_at_position(&p, line, col);
+        let c = db.find_fixture_or_definition_at_position(&p, line, col);
+        reach!("k_stale_spans.end");
+        std::mem::forget(a); std::mem::forget(b); std::mem::forget(c); std::mem::forget(db); std::mem::forget(w);
     }
 }
